@@ -472,8 +472,8 @@ static CE replayLine(const std::string& stream, const std::string& line) {
 static void onAlarm(int) { const char m[] = "c19: GEOS call exceeded the per-case time limit\n"; ssize_t w = write(2, m, sizeof m - 1); (void) w; _exit(3); }
 
 int main(int argc, char** argv) {
-    // self-protection (a broken library must not take the machine down): 4 GB address space, 30 s per process step
-    { struct rlimit rl; rl.rlim_cur = rl.rlim_max = (rlim_t) 4 << 30; setrlimit(RLIMIT_AS, &rl); std::signal(SIGALRM, onAlarm); }
+    // self-protection (a broken library must not take the machine down): 1 GB address space, 30 s per case
+    { struct rlimit rl; rl.rlim_cur = rl.rlim_max = (rlim_t) 1 << 30; setrlimit(RLIMIT_AS, &rl); std::signal(SIGALRM, onAlarm); }
     if (argc < 4) { std::fprintf(stderr, "usage: c19 <stream> <seed> <n> <outbase> | c19 replay <stream> <file>\n"); return 2; }
     DRY = std::getenv("C19_DRY") != nullptr;
     H = GEOS_init_r(); GEOSContext_setNoticeHandler_r(H, notice); GEOSContext_setErrorHandler_r(H, errorh);
